@@ -3,6 +3,8 @@ package vg
 import (
 	"encoding/json"
 	"fmt"
+	"net/http"
+	"net/http/httptest"
 	"os"
 	"sort"
 	"strings"
@@ -75,6 +77,9 @@ type histRun struct {
 	resets       int
 	fatal        bool
 	seenViol     map[string]bool
+	qpoints      []int64
+	finalClosed  map[int]bool
+	tokens       map[int][]tokenSet
 }
 
 func (h *histRun) logf(format string, a ...interface{}) {
@@ -293,6 +298,7 @@ func (h *histRun) settle() bool {
 		return false
 	}
 	h.stat("quiescent_points", 1)
+	h.qpoints = append(h.qpoints, h.g.Clock.Tick())
 	for k := range h.maybePending {
 		h.maybePending[k] = map[string]bool{}
 	}
@@ -365,6 +371,13 @@ func (h *histRun) step() {
 		c = clients[r.Intn(len(clients))]
 	}
 	rid := h.names[r.Intn(len(h.names))]
+	switch op {
+	case "change", "add", "remove", "custom", "delete", "reaccess", "recreate":
+		// {cid}-tagged resources are per connection; the world keeps them static
+		if strings.Contains(rid, "{cid}") {
+			return
+		}
+	}
 	switch op {
 	case "sub":
 		if c == nil {
@@ -545,8 +558,16 @@ func (h *histRun) step() {
 			return
 		}
 		h.tokenSeq++
-		tok := fmt.Sprintf(`{"token":{"n":%d}}`, h.tokenSeq)
+		tv := fmt.Sprintf(`{"conn":%d,"n":%d}`, c.Idx, h.tokenSeq)
+		if r.Chance(10) {
+			tv = "null"
+		}
+		tok := fmt.Sprintf(`{"token":%s,"tid":"tid%d"}`, tv, c.Idx)
 		h.logf("conn=%d token %s", c.Idx, tok)
+		if h.tokens == nil {
+			h.tokens = map[int][]tokenSet{}
+		}
+		h.tokens[c.Idx] = append(h.tokens[c.Idx], tokenSet{T: h.g.Clock.Tick(), Token: canonJSON(tv)})
 		h.g.Bus.Event("conn."+c.CID+".token", []byte(tok), nil)
 	}
 }
@@ -654,6 +675,10 @@ func (h *histRun) finish(ok bool) *HistResult {
 			h.checkQuiescent(true)
 			h.finalPhase()
 		}
+	}
+	if ok && res.Inconclusive == "" {
+		h.checkC03()
+		h.checkBoundary()
 	}
 	res.Counters = verifhook.Counters()
 	res.Notes = verifhook.Notes()
@@ -794,7 +819,7 @@ func (h *histRun) checkQuiescent(final bool) {
 		for _, rid := range rc.Retained() {
 			res := rc.Cache[rid]
 			h.stat("c01_pairs", 1)
-			if res.Kind == RError || res.Deleted {
+			if res.Kind == RError || res.Deleted || res.Tentative {
 				h.stat("c01_skipped", 1)
 				continue
 			}
@@ -862,15 +887,17 @@ func (h *histRun) checkQuiescent(final bool) {
 				rids[rid] = true
 			}
 			for rid := range rids {
-				if rc.Uncertain[rid] {
-					continue
-				}
 				hs, ok := snap.Subs[rid]
 				hd := 0
 				if ok {
 					hd = hs.Direct
 				}
 				h.stat("c08_direct_compared", 1)
+				if hd >= rc.Direct[rid] && hd <= rc.Direct[rid]+rc.Extra[rid] {
+					// the hook settles an uncertain count
+					rc.Direct[rid] = hd
+					rc.Extra[rid] = 0
+				}
 				if hd != rc.Direct[rid] {
 					sig := "directMismatch"
 					if h.hasNote("populate.deleted", c.CID, rid) {
@@ -878,7 +905,13 @@ func (h *histRun) checkQuiescent(final bool) {
 					}
 					h.viol(Viol{Prop: "C08", Conn: c.Idx, T: now, RID: rid, Sig: sig,
 						Msg: fmt.Sprintf("gateway holds %d direct subscriptions on %s, protocol accounting says %d", hd, rid, rc.Direct[rid])})
-					rc.Uncertain[rid] = true
+					if hd >= 0 {
+						if hd > rc.Direct[rid] {
+							rc.Extra[rid] = hd - rc.Direct[rid]
+						} else {
+							rc.Direct[rid] = hd
+						}
+					}
 				}
 				if ok && hs.Direct == 0 && hs.Indirect == 0 && hs.IndirectSent == 0 {
 					h.viol(Viol{Prop: "C08", Conn: c.Idx, T: now, RID: rid, Sig: "residue",
@@ -1029,6 +1062,8 @@ func (h *histRun) checkCache(entries []rescache.VerifEntry, snaps map[string]ser
 					sig := "subscriptionNotInCache"
 					if h.hasNote("populate.deleted", cid, rid) {
 						sig += ".populateDeleted"
+					} else if h.hadDelete(rid) {
+						sig += ".afterDelete"
 					}
 					h.viol(Viol{Prop: "C09", T: now, RID: rid, Sig: sig,
 						Msg: fmt.Sprintf("subscription %s/%s is loaded but the cache does not list it as subscriber", cid, rid)})
@@ -1051,8 +1086,10 @@ func (h *histRun) checkCache(entries []rescache.VerifEntry, snaps map[string]ser
 // finalPhase disconnects everything and checks that nothing is left.
 func (h *histRun) finalPhase() {
 	open := h.openClients()
+	h.finalClosed = map[int]bool{}
 	for _, c := range open {
 		h.closedAt[c.Idx] = h.g.Clock.Tick()
+		h.finalClosed[c.Idx] = true
 		c.Close()
 	}
 	h.logf("final: all %d connections closed", len(open))
@@ -1078,15 +1115,10 @@ func (h *histRun) finalPhase() {
 		h.viol(Viol{Prop: "C09", T: now, RID: e.Name, Sig: "entryLeft", Msg: fmt.Sprintf("cache entry %s (count %d) left with no clients and nothing in flight", e.Name, e.Count)})
 	}
 	h.checkLate()
+	if h.cfg.Metrics {
+		h.checkGauges(now)
+	}
 	h.stat("final_checks", 1)
-}
-
-// checkLate asserts that no request was issued on behalf of a connection after
-// the quiescent point that absorbed its disconnect.
-func (h *histRun) checkLate() {
-	// The final quiescent point absorbed every disconnect: nothing may follow.
-	// (Requests between the disconnect and that point are legitimate: they may
-	// have been issued before the gateway noticed.)
 }
 
 // signature computes the interleaving signature of this execution.
@@ -1142,4 +1174,53 @@ func subsSummary(snap server.VerifConnSnap) string {
 		fmt.Fprintf(&sb, "[%s d=%d i=%d is=%d st=%d refs=%v] ", rid, hs.Direct, hs.Indirect, hs.IndirectSent, hs.State, hs.Refs)
 	}
 	return sb.String()
+}
+
+// checkGauges scrapes /metrics at quiescence and requires the cache gauges to be zero.
+func (h *histRun) checkGauges(now int64) {
+	mh := h.g.Svc.MetricsHandler()
+	if mh == nil {
+		return
+	}
+	rec := httptest.NewRecorder()
+	req, _ := http.NewRequest("GET", "/metrics", nil)
+	mh.ServeHTTP(rec, req)
+	for _, line := range strings.Split(rec.Body.String(), "\n") {
+		for _, g := range []string{"resgate_cache_resources", "resgate_cache_subscriptions"} {
+			if strings.HasPrefix(line, g+" ") {
+				h.stat("c09_gauges_read", 1)
+				if v := strings.TrimSpace(line[len(g):]); v != "0" && v != "0.0" {
+					sig := "gaugeNotZero"
+					for _, n := range verifhook.Notes() {
+						if n.Site == "populate.deleted" {
+							sig = "gaugeNotZero.populateDeleted"
+						}
+					}
+					if sig == "gaugeNotZero" {
+						for _, n := range verifhook.Notes() {
+							if n.Site == "sub.disposeQueuedDelete" {
+								sig = "gaugeNotZero.disposeQueuedDelete"
+							}
+						}
+					}
+					h.viol(Viol{Prop: "C09", T: now, RID: g, Sig: sig, Msg: fmt.Sprintf("%s reads %s with no clients and nothing in flight", g, v)})
+				}
+			}
+		}
+	}
+}
+
+// hadDelete reports whether the service ever emitted a delete event for the resource.
+func (h *histRun) hadDelete(rid string) bool {
+	name, _ := ridName(rid)
+	wr := h.w.Get(name)
+	if wr == nil {
+		return false
+	}
+	for _, ev := range wr.Stream {
+		if ev.Kind == "delete" {
+			return true
+		}
+	}
+	return false
 }
